@@ -7,7 +7,7 @@ VERIF = os.path.dirname(os.path.dirname(os.path.abspath(__file__)))
 SPEC = os.path.join(VERIF, "spec")
 OUT = os.path.join(VERIF, "out")
 HARNESS = os.path.join(VERIF, "harness")
-VH = os.path.join(HARNESS, "target", "release", "vh")
+VH = os.environ.get("VERIF_VH") or os.path.join(HARNESS, "target", "release", "vh")
 TLA_CP = "/opt/veriftools/tla/tla2tools.jar:/opt/veriftools/tla/CommunityModules-deps.jar"
 SEED = int(os.environ.get("VERIF_SEED", "20260925"))
 
@@ -33,7 +33,7 @@ _built = False
 def build_harness():
     """cargo build the harness; path dependencies make cargo rebuild whatever changed in /repo."""
     global _built
-    if _built:
+    if _built or os.environ.get("VERIF_VH"):   # VERIF_VH: development aid (an agent's private build)
         return
     t = time.time()
     env = dict(os.environ, CARGO_NET_OFFLINE="true")
